@@ -491,7 +491,7 @@ func lastWAL(path string) (int64, string, string) {
 	return n, parts[1], parts[2]
 }
 
-var frameRE = regexp.MustCompile(`^(github\.com/(veraison|fxamacker)[^\s(]*)`)
+var frameRE = regexp.MustCompile(`^(github\.com/(?:veraison|fxamacker)/\S*?)\([^()]*\)\s*$`)
 
 func crashSignature(errPath string) (string, string) {
 	b, _ := os.ReadFile(errPath)
